@@ -427,3 +427,40 @@ def validate_traces(module: str, cfg: str, traces: list, work: Work, tag="tr", e
         for t in sub:
             diag[t["id"]] = at.get(t["id"], (0, ()))
     return res, accepted, diag
+
+
+# ---------------------------------------------------------------- random deep behaviours (tlc -simulate)
+def simulate_final_states(module, cfg, work: Work, num, depth, sim_seed, tag="sim"):
+    """runs `tlc -simulate` and returns (tlc result, [last state of every generated behaviour])"""
+    d = work.path(tag)
+    if d.exists():
+        shutil.rmtree(d)
+    d.mkdir()
+    res = run_tlc(module, cfg, work, workers=1, simulate=f"file={d}/tr,num={num}", depth=depth, extra_args=["-seed", str(sim_seed)], tag=tag)
+    m = re.search(r"(\d+) states checked", res["out"])
+    if m:
+        res["states"] = res["generated"] = int(m.group(1))
+    finals = []
+    for f in sorted(d.iterdir()):
+        text = f.read_text()
+        blocks = re.split(r"^STATE_\d+ == *$", text, flags=re.M)
+        if len(blocks) < 2:
+            continue
+        last = blocks[-1]
+        last = re.split(r"^\\\* <|^=+$", last, flags=re.M)[0]
+        st = {}
+        name = None
+        buf = ""
+        for line in last.splitlines():
+            if line.startswith("/\\ "):
+                if name:
+                    st[name] = parse_tla(buf)
+                name, rest = line[3:].split(" = ", 1)
+                buf = rest
+            elif line.strip():
+                buf += "\n" + line
+        if name:
+            st[name] = parse_tla(buf)
+        finals.append(st)
+    shutil.rmtree(d, ignore_errors=True)
+    return res, finals
